@@ -389,6 +389,7 @@ func (e *Engine) Close() {
 	for stream := range e.streams {
 		streams = append(streams, stream)
 	}
+	verifOrderStreams(streams)
 
 	// kill the tomb under the mutex, then release it so that in-flight Begin
 	// calls can re-acquire the mutex and observe the dead tomb
